@@ -7,6 +7,7 @@ import checks_text as ct
 import checks_api as ca
 import checks_cli as cc
 import checks_nd as cn
+import checks_regex as cr
 
 T = "JPV.Tables."
 
@@ -139,5 +140,11 @@ PROPS = {
         theorems=["JPV.Props.C17_shuffle_perm", "JPV.Props.C17_merge_interleaves", "JPV.Props.C17_children", "JPV.Props.C17_partial"],
         tables=[T + "random_sites_model", T + "env_defaults_model"],
         explore=cn.explore_c17,
+    ),
+    "C11": dict(
+        modules=["JPV.Props.C11"],
+        theorems=["JPV.Props.C11_logic", "JPV.Props.C11_translation", "JPV.Props.C11_semantics"],
+        tables=[T + "re_calls_model", T + "builtin_sigs_model"],
+        explore=cr.explore_c11,
     ),
 }
